@@ -7,12 +7,18 @@
      (panic on the compact-encoding variant and on an inlined child that is the empty node).
    [st] = (decodeUint, decodeBytes) of pkg/scale reject short reads — probed by the harness. *)
 From Common Require Import Bytes Outcome Blake2b.
-From TrieCodec Require Export Codec View.
+From TrieCodec Require Export Codec View Dencode.
 
 Definition node_decode (st : bool * bool) (bs : list byte) : outcome (option dnode) := decode st true bs.
 Definition node_decode_pinned (st : bool * bool) (bs : list byte) : outcome (option dnode) := decode st false bs.
 Definition codec_decode (st : bool * bool) (bs : list byte) : outcome cnode := cdecode st true bs.
 Definition codec_decode_pinned (st : bool * bool) (bs : list byte) : outcome cnode := cdecode st false bs.
+
+(* Node.Encode applied to a node that node.Decode returned: as repaired by
+   fixes/C07-encode-decoded-hashed-value.patch, and as found in the pinned tree (a stored value hash
+   is encoded as an inline 32-byte value) *)
+Definition node_reencode (H : list byte -> list byte) (d : dnode) : list byte := dencode H true d.
+Definition node_reencode_pinned (H : list byte -> list byte) (d : dnode) : list byte := dencode H false d.
 
 Definition variant_name (v : variant) : nat :=
   match v with VLeaf => 0 | VBranch => 1 | VBranchVal => 2 | VLeafHashed => 3 | VBranchHashed => 4
